@@ -35,20 +35,20 @@ Section Text.
   (* every document tree that says the expected tree — possibly after indentation — is read and
      parsed back to the instance *)
   Theorem document_parses : forall n cl o e,
-    wf_model u cl = true -> fits n cl o = true -> noq o = true -> exact_classes u n cl o = true ->
+    wf_model u cl = true -> fits n cl o = true -> noq o = true -> exact_classes u n cl o = true -> nomaps_u u = true ->
     e = eobj c u ign n None o ->
     forall t' m k,
       wf_doc t' = true -> doc_says e (strip_indent t') = true ->
       Parser.parse_n k cfg c u (Some cl) (pump_doc m t' None) = Parser.Ok o [].
   Proof.
-    intros n cl o e Hwf Hfit Hnq Hex -> t' m k Hwd Hs.
-    apply (parse_reads cfg c u ok ign conv_law Hnodef n k cl o _ Hwf Hfit).
+    intros n cl o e Hwf Hfit Hnq Hex Hnm -> t' m k Hwd Hs.
+    apply (parse_reads cfg c u ok ign conv_law Hnodef false n k cl o _ (or_intror Hnm) Hwf Hfit).
     apply (doc_reads _ (plain_obj c u ok ign n cl o None (wf_model_wfr u cl Hwf) Hfit Hnq Hex) [] m t' None Hwd eq_refl Hs).
   Qed.
 
   (* XmlEventWriter *)
   Theorem roundtrip_native : forall n cl o wcfg user,
-    wf_model u cl = true -> fits n cl o = true -> noq o = true -> exact_classes u n cl o = true ->
+    wf_model u cl = true -> fits n cl o = true -> noq o = true -> exact_classes u n cl o = true -> nomaps_u u = true ->
     cfg_schema_location wcfg = None -> cfg_no_ns_schema_location wcfg = None ->
     exists evs,
       EventGen.generate ign c u o = EventGen.Ok evs
@@ -59,21 +59,21 @@ Section Text.
                  wf_doc t' = true -> strip_indent t' = strip_indent t ->
                  Parser.parse_n k cfg c u (Some cl) (pump_doc m t' None) = Parser.Ok o []).
   Proof.
-    intros n cl o wcfg user Hwf Hfit Hnq Hex Hc1 Hc2. pose proof (wf_model_wfr u cl Hwf) as Hw.
+    intros n cl o wcfg user Hwf Hfit Hnq Hex Hnm Hc1 Hc2. pose proof (wf_model_wfr u cl Hwf) as Hw.
     exists (bflat (add_nil_g (cnil u o) (gobj c u ign n None o))). split; [apply (generate_ok c u ok ign n cl o Hwf Hfit)|].
     intros Hg. destruct (writer_sound_native wcfg user _ Hg) as [e [d [t [He [Hrun [Hres Hsays]]]]]].
     rewrite (expected_plain wcfg _ Hc1 Hc2) in He.
     rewrite (events_mean c u ok py_isspace ign n cl o Hw Hfit) in He. inversion He; subst e. clear He.
     exists d, t. split; [exact Hrun|]. split; [exact Hres|].
     intros t' m k Hwd Hst.
-    apply (document_parses n cl o _ Hwf Hfit Hnq Hex eq_refl t' m k Hwd).
+    apply (document_parses n cl o _ Hwf Hfit Hnq Hex Hnm eq_refl t' m k Hwd).
     unfold doc_says in *. rewrite Hst. apply says_strip; [|exact Hsays].
     apply (plain_obj c u ok ign n cl o None Hw Hfit Hnq Hex).
   Qed.
 
   (* LxmlEventWriter *)
   Theorem roundtrip_lxml : forall n cl o wcfg user,
-    wf_model u cl = true -> fits n cl o = true -> noq o = true -> exact_classes u n cl o = true ->
+    wf_model u cl = true -> fits n cl o = true -> noq o = true -> exact_classes u n cl o = true -> nomaps_u u = true ->
     cfg_schema_location wcfg = None -> cfg_no_ns_schema_location wcfg = None ->
     exists evs,
       EventGen.generate ign c u o = EventGen.Ok evs
@@ -85,14 +85,14 @@ Section Text.
                  wf_doc t' = true -> strip_indent t' = strip_indent t ->
                  Parser.parse_n k cfg c u (Some cl) (pump_doc m t' None) = Parser.Ok o []).
   Proof.
-    intros n cl o wcfg user Hwf Hfit Hnq Hex Hc1 Hc2. pose proof (wf_model_wfr u cl Hwf) as Hw.
+    intros n cl o wcfg user Hwf Hfit Hnq Hex Hnm Hc1 Hc2. pose proof (wf_model_wfr u cl Hwf) as Hw.
     exists (bflat (add_nil_g (cnil u o) (gobj c u ign n None o))). split; [apply (generate_ok c u ok ign n cl o Hwf Hfit)|].
     intros Hg Hd. destruct (writer_sound_lxml wcfg user _ Hg Hd) as [e [t [He [Hrun Hsays]]]].
     rewrite (expected_plain wcfg _ Hc1 Hc2) in He.
     rewrite (events_mean c u ok py_isspace ign n cl o Hw Hfit) in He. inversion He; subst e. clear He.
     exists t. split; [exact Hrun|].
     intros t' m k Hwd Hst.
-    apply (document_parses n cl o _ Hwf Hfit Hnq Hex eq_refl t' m k Hwd).
+    apply (document_parses n cl o _ Hwf Hfit Hnq Hex Hnm eq_refl t' m k Hwd).
     unfold doc_says in *. rewrite Hst. apply says_strip; [|exact Hsays].
     apply (plain_obj c u ok ign n cl o None Hw Hfit Hnq Hex).
   Qed.
